@@ -6,6 +6,7 @@ import (
 	"encoding/binary"
 	"fmt"
 	"io"
+	"net"
 	"os"
 	"strings"
 	"sync"
@@ -167,6 +168,11 @@ type relayEdit struct {
 	kind  string // xor insert drop split merge
 	off   int    // byte offset inside the serialized frame (header included)
 	val   byte
+	// kind "rewrite": a SEMANTIC edit of a cleartext negotiation ad -- the value of attribute attr is
+	// replaced by newVal (ClassAd source text) and the frame re-framed to its new length; in direction
+	// dir only, or (both) in the first frame of BOTH directions at once
+	attr, newVal string
+	both         bool
 }
 
 type relayStats struct {
@@ -174,11 +180,91 @@ type relayStats struct {
 	applied bool     // the edit really changed the bytes in transit (its frame came and was long enough)
 	frames  [2][]int // serialized sizes of frames forwarded so far
 	order   []int    // direction of every frame in the order the relay took them
+	raw     [2][][]byte // the frames as the sender wrote them (header included)
+	nApplied int        // how many frames an edit changed (a rewrite of both ads: 2)
+}
+
+// messages: what the senders wrote, as messages in the order the relay took their first frame (for
+// readAuthLoop: which method exchanges ran on the wire and which one completed).
+func (st *relayStats) messages() []tapMsg {
+	st.mu.Lock()
+	defer st.mu.Unlock()
+	var out []tapMsg
+	open := [2]int{-1, -1}
+	idx := [2]int{}
+	for seq, d := range st.order {
+		raw := st.raw[d][idx[d]]
+		idx[d]++
+		f := refcodec.Frame{Flag: raw[0], Len: uint32(len(raw) - 5), Body: raw[5:]}
+		if open[d] < 0 {
+			out = append(out, tapMsg{dir: d, seq: seq})
+			open[d] = len(out) - 1
+		}
+		m := &out[open[d]]
+		m.frames = append(m.frames, f)
+		m.payload = append(m.payload, f.Body...)
+		if f.Flag != 0 {
+			open[d] = -1
+		}
+	}
+	return out
+}
+
+// adPrefix: bytes in front of the expression strings of the negotiation ad in the first message of a
+// direction: [command int64] (client only) [expression count int64].
+func adPrefix(dir int) int {
+	if dir == 0 {
+		return 16
+	}
+	return 8
+}
+
+// adAttrs lists `name -> value source text` of the ad carried by a first frame (body, no header).
+func adAttrs(body []byte, dir int) (names []string, vals map[string]string) {
+	vals = map[string]string{}
+	if len(body) < adPrefix(dir) {
+		return
+	}
+	for _, part := range bytes.Split(body[adPrefix(dir):], []byte{0}) {
+		s := string(part)
+		eq := strings.Index(s, " = ")
+		if eq <= 0 {
+			continue
+		}
+		names = append(names, s[:eq])
+		vals[s[:eq]] = s[eq+3:]
+	}
+	return
+}
+
+// rewriteAd replaces the value of attr in the ad of a first frame; returns the re-framed frame.
+func rewriteAd(raw []byte, dir int, attr, newVal string) ([]byte, bool) {
+	body := raw[5:]
+	pre := adPrefix(dir)
+	if len(body) < pre {
+		return nil, false
+	}
+	parts := bytes.Split(body[pre:], []byte{0})
+	hit := false
+	for i, part := range parts {
+		if strings.HasPrefix(string(part), attr+" = ") && string(part) != attr+" = "+newVal {
+			parts[i] = []byte(attr + " = " + newVal)
+			hit = true
+			break
+		}
+	}
+	if !hit {
+		return nil, false
+	}
+	nb := append(append([]byte{}, body[:pre]...), bytes.Join(parts, []byte{0})...)
+	f := refcodec.Frame{Flag: raw[0], Len: uint32(len(nb)), Body: nb}
+	return f.Bytes(), true
 }
 
 func (st *relayStats) markApplied() {
 	st.mu.Lock()
 	st.applied = true
+	st.nApplied++
 	st.mu.Unlock()
 }
 
@@ -200,10 +286,12 @@ func readFrame(src *bufpipe.Conn) (hdr, body []byte, ok bool) {
 
 func pump(src, dst *bufpipe.Conn, dir int, ed *relayEdit, st *relayStats, stop *bool) {
 	idx := 0
+	var cur []byte
 	note := func(n int) {
 		st.mu.Lock()
 		st.frames[dir] = append(st.frames[dir], n)
 		st.order = append(st.order, dir)
+		st.raw[dir] = append(st.raw[dir], append([]byte{}, cur...))
 		st.mu.Unlock()
 	}
 	for {
@@ -214,10 +302,16 @@ func pump(src, dst *bufpipe.Conn, dir int, ed *relayEdit, st *relayStats, stop *
 		}
 		n := uint32(len(body))
 		raw := append(hdr, body...)
+		cur = raw
 		note(len(raw))
 		out := raw
-		if ed != nil && ed.dir == dir && ed.frame == idx {
+		if ed != nil && (ed.dir == dir || (ed.both && ed.kind == "rewrite")) && ed.frame == idx {
 			switch ed.kind {
+			case "rewrite":
+				if nw, ok := rewriteAd(raw, dir, ed.attr, ed.newVal); ok {
+					out = nw
+					st.markApplied()
+				}
 			case "xor":
 				if ed.off < len(raw) {
 					out = append([]byte{}, raw...)
@@ -247,6 +341,7 @@ func pump(src, dst *bufpipe.Conn, dir int, ed *relayEdit, st *relayStats, stop *
 					dst.Close()
 					return
 				}
+				cur = append(append([]byte{}, hdr2...), body2...)
 				note(5 + len(body2))
 				idx++
 				m := refcodec.Frame{Flag: hdr2[0], Len: n + uint32(len(body2)), Body: append(append([]byte{}, body...), body2...)}
@@ -269,6 +364,11 @@ type relayShape struct {
 	name    string
 	resumed bool
 	method  string // the method that must complete in the unmodified run ("" = none)
+	// two-method shapes: failFirst is the method whose exchange must RUN AND FAIL on the wire before
+	// `method` completes (an abandoned authentication attempt: its frames are cleartext transcript too);
+	// nat: the client reaches the server through an address translator (FS then fails)
+	failFirst string
+	nat       bool
 	cli     func(cache *security.SessionCache) *security.SecurityConfig
 	srv     func() *security.SecurityConfig
 }
@@ -285,6 +385,7 @@ type relayOut struct {
 	timedOut         bool // the run was ended by the harness's time bound, not by either endpoint
 	stalled          bool // every party was waiting for another (detected as an event): ended at once
 	hsOK, appOK      bool
+	enc              bool // either end's stream was AES-GCM keyed when its handshake returned success
 	resumed          bool // the client reports that it resumed a cached session
 	cMethod, sMethod string
 	st               *relayStats
@@ -349,6 +450,9 @@ func relayRunBound(sh relayShape, cache *security.SessionCache, ed *relayEdit, b
 		}
 	}()
 	cst, sst := stream.NewStream(c1), stream.NewStream(s1)
+	if sh.nat {
+		cst = stream.NewStream(&natConn{Conn: c1, remote: strAddr("192.0.2.77:9618")})
+	}
 	sst.SetPeerAddr("10.0.0.1:1111")
 	var sneg *security.SecurityNegotiation
 	var serr error
@@ -397,6 +501,7 @@ func relayRunBound(sh relayShape, cache *security.SessionCache, ed *relayEdit, b
 		if sneg != nil && sneg.Authentication {
 			o.sMethod = string(sneg.NegotiatedAuth)
 		}
+		o.enc = cst.IsEncrypted() || sst.IsEncrypted()
 		appPhase.Store(true)
 		e1 := cst.SendMessage(ctx, []byte("c2s-app"))
 		m1, e2 := sst.ReceiveCompleteMessage(ctx)
@@ -417,7 +522,16 @@ func relayRunBound(sh relayShape, cache *security.SessionCache, ed *relayEdit, b
 	return
 }
 
-func relayShapes(m *stallMaterial) []relayShape {
+// natConn: the client's end as seen from behind an address translator (it dialled `remote`).
+type natConn struct {
+	*bufpipe.Conn
+	remote net.Addr
+}
+
+func (n *natConn) RemoteAddr() net.Addr { return n.remote }
+
+func relayShapes(hm *hsMaterial) []relayShape {
+	m := hm.stallMaterial
 	claimSrv := func() *security.SecurityConfig {
 		sc := *srvConf(true)
 		sc.Authentication = security.SecurityOptional
@@ -455,6 +569,28 @@ func relayShapes(m *stallMaterial) []relayShape {
 			sc.SessionCache = nil
 			return sc
 		}},
+		// the FIRST common method runs on the wire and fails, both ends abandon it and a later one
+		// completes: the frames of the abandoned attempt are cleartext transcript like any other
+		{name: "fs-fails-claim", method: "CLAIMTOBE", failFirst: "FS", nat: true, cli: func(cache *security.SessionCache) *security.SecurityConfig {
+			cc := stallConf([]string{"FS", "CLAIMTOBE"}, "REQUIRED", "OPTIONAL", aes)
+			cc.SessionCache, cc.PeerName = cache, "srvA"
+			return cc
+		}, srv: func() *security.SecurityConfig {
+			sc := stallConf([]string{"FS", "CLAIMTOBE"}, "REQUIRED", "OPTIONAL", aes)
+			sc.SessionCache = nil
+			return sc
+		}},
+		{name: "token-bad-claim", method: "CLAIMTOBE", failFirst: "TOKEN", cli: func(cache *security.SessionCache) *security.SecurityConfig {
+			cc := stallConf([]string{"TOKEN", "CLAIMTOBE"}, "REQUIRED", "OPTIONAL", aes)
+			cc.SessionCache, cc.PeerName = cache, "srvA"
+			hm.cliToken(hm.badTokenFile)(cc)
+			return cc
+		}, srv: func() *security.SecurityConfig {
+			sc := stallConf([]string{"TOKEN", "CLAIMTOBE"}, "REQUIRED", "OPTIONAL", aes)
+			sc.SessionCache = nil
+			hm.srvToken()(sc)
+			return sc
+		}},
 	}
 }
 
@@ -475,10 +611,11 @@ func runRelay(c *Ctx) error {
 		return err
 	}
 	defer os.RemoveAll(work)
-	mat, err := stallPrepare(work)
+	mat, matCleanup, err := hsPrepare(c)
 	if err != nil {
 		return err
 	}
+	defer matCleanup()
 	defer func() {
 		// only the directories named on this engine's own connections (fs_own_dirs.go), never a glob of /tmp
 		if n := ownFS.cleanup(); n > 0 {
@@ -540,10 +677,18 @@ func runRelay(c *Ctx) error {
 			continue
 		}
 		st := o.st
+		if sh.failFirst != "" {
+			wa := readAuthLoop(st.messages(), nil)
+			if !(wa.parsed && len(wa.ranAny) >= 2 && wa.ranAny[0] == sh.failFirst && len(wa.ranOK) == 1 && wa.ranOK[0] == sh.method) {
+				obligation(sh.name, fmt.Sprintf("the shape meant to run %s to failure and then %s to completion on the wire shows: begun %v completed %v (parsed=%v)", sh.failFirst, sh.method, wa.ranAny, wa.ranOK, wa.parsed))
+				continue
+			}
+			c.Count("shape:" + sh.name + ":first-method-failed-on-the-wire")
+		}
 		// frames seen during the honest run, minus the two application frames per direction's tail
 		var edits []relayEdit
 		step := c.Pick(3, 1)
-		if !c.Thorough() && (sh.name == "token" || sh.name == "fs") {
+		if !c.Thorough() && (sh.name == "token" || sh.name == "fs" || sh.failFirst != "") {
 			step = 5
 		}
 		for dir := 0; dir < 2; dir++ {
